@@ -2,7 +2,8 @@ from checks import both, EX
 
 CHECK = {
     'level': 'exploration',
-    'rule': ('single-table and two-table closure over resize requests (grow, shrink, same size with another function, back '
+    'rule': ('[work as memory touched] on tables of 2^15..2^17 buckets (bucket array of hundreds of pages) every keyed call of an incremental rehash -- including the call that completes it, after an odd and an even number of earlier rehashes -- runs with the pages of the bucket array access-protected; a SIGSEGV handler counts and re-opens each page touched: at most 64 pages per call (7 observed), whatever the table size (configuration rel-native); [forced finish] on tables of 3000..16384 buckets a resize is followed by 1100..3600 keyed calls and then the rehash is forced to finish by rehash / foreach / a further resize / shrink_to_fit: every element is found and enumerated once afterwards; '
+             'single-table and two-table closure over resize requests (grow, shrink, same size with another function, back '
              'to the previous geometry, repeated, f=NULL) interleaved with keyed calls on unique keys, every hash function '
              'wrapped by a logging trampoline; oracles: load == size/n right after each satisfiable resize; per keyed call the '
              'consultation log is split into lookups and relocations, a shadow element->bucket map gives the number of '
@@ -17,6 +18,9 @@ CHECK = {
         {'harness': 'hash', 'mode': 'incr', 'sources': ['harness/hash.c'] + EX, 'configs': both(['dbg-asan', 'rel-asan'], ['dbg-asan', 'rel-asan', 'rel-plain']),
          # quick: the release build (what is shipped: -O2 -DNDEBUG) on the closure scopes and the first random histories
          'max_cases': {'rel-asan': {'quick': 260}}},
+        # work bound observed as memory touched (page-protection monitor on the bucket array, needs the real page layout: rel-native)
+        # and forced finishes after partial incremental progress on tables of thousands of buckets
+        {'harness': 'hashwork', 'sources': ['harness/hashwork.c'], 'configs': both(['rel-native', 'rel-asan'])},
     ],
 }
 
